@@ -769,6 +769,11 @@ func Check(r *vrep.Report, callsV []uni.Call, tsos []uni.TSOEvent, recs []*work.
 			if v == nil || v.owner < 0 {
 				break
 			}
+			if inGC(c.Seq) {
+				// GC's batch resolution treats every lock at or below the safe point as expired (the statement's one exception)
+				r.Count("rule5_pessimistic_rollback_in_gc", 1)
+				break
+			}
 			r.Count("rule5_pessimistic_rollback_evaluated", 1)
 			if s := get(c.Client, req.StartVersion); !s.rollback && len(s.commits) == 0 {
 				viol("5:pessimistic-rollback-of-live-lock", fmt.Sprintf("client %d: PessimisticRollback of txn %d (owned by client %d) without a status response saying expired or finished", c.Client, req.StartVersion, v.owner), c)
